@@ -385,15 +385,30 @@ fn connect<P: AsRef<Path>>(env: &Env, dbfile: P) -> rusqlite::Result<Connection>
     // mode PERSIST.  But WAL fails on Windows WSL due to WSL's totally broken
     // locking.  On WSL, at least PERSIST works in single-threaded mode, so
     // if we're careful we can use it, more or less.
-    let journal_mode = db.query_row(
-        if env.locks_broken() {
-            "pragma journal_mode = PERSIST"
-        } else {
-            "pragma journal_mode = WAL"
-        },
-        [],
-        |row| -> rusqlite::Result<String> { row.get(0) },
-    )?;
+    // Switching a fresh database to another journal mode needs an exclusive lock.
+    // When several processes open it at the same time SQLite may answer "busy" at
+    // once instead of waiting (it refuses to wait where two lock upgrades would
+    // deadlock), so the busy timeout does not cover this statement: retry.
+    let deadline = std::time::Instant::now() + Duration::from_secs(60);
+    let journal_mode = loop {
+        match db.query_row(
+            if env.locks_broken() {
+                "pragma journal_mode = PERSIST"
+            } else {
+                "pragma journal_mode = WAL"
+            },
+            [],
+            |row| -> rusqlite::Result<String> { row.get(0) },
+        ) {
+            Err(rusqlite::Error::SqliteFailure(e, _))
+                if e.code == rusqlite::ErrorCode::DatabaseBusy
+                    && std::time::Instant::now() < deadline =>
+            {
+                std::thread::sleep(Duration::from_millis(5));
+            }
+            r => break r?,
+        }
+    };
     if env.locks_broken() {
         assert_eq!(&journal_mode, "persist");
     } else {
